@@ -34,6 +34,8 @@ type curType struct {
 	concreteAll bool
 	// methods (by receiver) that may reload
 	may map[*ssa.Function]bool
+	// forwarders: methods that only pass a call on to the inner iterator and hand back its answer
+	fwd map[*ssa.Function]bool
 	// all functions whose first parameter is *T
 	methods []*ssa.Function
 }
@@ -68,24 +70,41 @@ func (p *Prog) cursorTypes() []*curType {
 			continue
 		}
 		inner, keys := map[int]bool{}, map[int]bool{}
-		for _, b := range f.Blocks {
-			for _, ins := range b.Instrs {
-				sto, ok := ins.(*ssa.Store)
-				if !ok {
-					continue
-				}
-				fa, ok := sto.Addr.(*ssa.FieldAddr)
-				if !ok || fa.X != ssa.Value(f.Params[0]) {
-					continue
-				}
-				ft := st.Field(fa.Field).Type()
-				if _, isI := ft.Underlying().(*types.Interface); isI {
-					inner[fa.Field] = true
-				} else if bt, ok := ft.Underlying().(*types.Basic); ok && bt.Info()&types.IsUnsigned != 0 {
-					keys[fa.Field] = true
+		// the stores of the method and of the helpers it calls on the same receiver (init split into
+		// chooseChunk + bindInner)
+		seenFn := map[*ssa.Function]bool{}
+		var scanStores func(g *ssa.Function, d int)
+		scanStores = func(g *ssa.Function, d int) {
+			if g == nil || g.Blocks == nil || seenFn[g] || d > 3 {
+				return
+			}
+			seenFn[g] = true
+			for _, b := range g.Blocks {
+				for _, ins := range b.Instrs {
+					switch x := ins.(type) {
+					case *ssa.Store:
+						fa, ok := x.Addr.(*ssa.FieldAddr)
+						if !ok || fa.X != ssa.Value(g.Params[0]) {
+							continue
+						}
+						ft := st.Field(fa.Field).Type()
+						if _, isI := ft.Underlying().(*types.Interface); isI {
+							inner[fa.Field] = true
+						} else if bt, ok := ft.Underlying().(*types.Basic); ok && bt.Info()&types.IsUnsigned != 0 {
+							keys[fa.Field] = true
+						}
+					case ssa.CallInstruction:
+						cc := x.Common()
+						if h := cc.StaticCallee(); h != nil && len(cc.Args) > 0 && cc.Args[0] == ssa.Value(g.Params[0]) && len(h.Params) > 0 {
+							if nt2, _ := recvNamedStruct(h); nt2 == nt {
+								scanStores(h, d+1)
+							}
+						}
+					}
 				}
 			}
 		}
+		scanStores(f, 0)
 		if len(inner) == 0 || len(keys) == 0 {
 			continue
 		}
@@ -161,7 +180,133 @@ func (p *Prog) cursorTypes() []*curType {
 			}
 		}
 	}
+	for _, ct := range order {
+		ct.fwd = map[*ssa.Function]bool{}
+		for _, f := range ct.methods {
+			if ct.may[f] || f == ct.reload || f.Signature.Results().Len() != 1 {
+				continue
+			}
+			all, n := true, 0
+			for _, b := range f.Blocks {
+				r, ok := b.Instrs[len(b.Instrs)-1].(*ssa.Return)
+				if !ok {
+					continue
+				}
+				n++
+				c, ok := r.Results[0].(*ssa.Call)
+				if !ok || !ct.onInner(f, c) {
+					all = false
+				}
+			}
+			if all && n > 0 {
+				ct.fwd[f] = true
+			}
+		}
+	}
 	return order
+}
+
+// innerVal: the value of an inner-iterator field of the receiver — a load of it, a phi of such loads, or a
+// type assertion of one
+func (ct *curType) innerVal(f *ssa.Function, v ssa.Value, seen map[ssa.Value]bool) bool {
+	if seen[v] {
+		return true
+	}
+	seen[v] = true
+	switch x := v.(type) {
+	case *ssa.UnOp:
+		if x.Op != token.MUL {
+			return false
+		}
+		fa, ok := x.X.(*ssa.FieldAddr)
+		return ok && fa.X == ssa.Value(f.Params[0]) && ct.inner[fa.Field]
+	case *ssa.Phi:
+		for _, e := range x.Edges {
+			if !ct.innerVal(f, e, seen) {
+				return false
+			}
+		}
+		return len(x.Edges) > 0
+	case *ssa.TypeAssert:
+		return ct.innerVal(f, x.X, seen)
+	case *ssa.Extract:
+		if ta, ok := x.Tuple.(*ssa.TypeAssert); ok && x.Index == 0 {
+			return ct.innerVal(f, ta.X, seen)
+		}
+	}
+	return false
+}
+
+// innerLoads: the loads of the inner-iterator field behind an inner value
+func (ct *curType) innerLoads(v ssa.Value, out map[ssa.Instruction]bool, seen map[ssa.Value]bool) {
+	if seen[v] {
+		return
+	}
+	seen[v] = true
+	switch x := v.(type) {
+	case *ssa.UnOp:
+		out[x] = true
+	case *ssa.Phi:
+		for _, e := range x.Edges {
+			ct.innerLoads(e, out, seen)
+		}
+	case *ssa.TypeAssert:
+		ct.innerLoads(x.X, out, seen)
+	case *ssa.Extract:
+		if ta, ok := x.Tuple.(*ssa.TypeAssert); ok {
+			ct.innerLoads(ta.X, out, seen)
+		}
+	}
+}
+
+// onInner: c is a call on the inner iterator: an invoke on an inner value, or a method call on a concrete
+// value asserted out of one
+func (ct *curType) onInner(f *ssa.Function, c *ssa.Call) bool {
+	if c.Call.IsInvoke() {
+		return ct.innerVal(f, c.Call.Value, map[ssa.Value]bool{})
+	}
+	if g := c.Call.StaticCallee(); g != nil && g.Signature.Recv() != nil && len(c.Call.Args) > 0 {
+		switch c.Call.Args[0].(type) {
+		case *ssa.TypeAssert, *ssa.Extract:
+			return ct.innerVal(f, c.Call.Args[0], map[ssa.Value]bool{})
+		}
+	}
+	return false
+}
+
+// innerRecv: the inner value a call is made on (for a forwarder call: nil)
+func (ct *curType) innerRecv(c *ssa.Call) ssa.Value {
+	if c.Call.IsInvoke() {
+		return c.Call.Value
+	}
+	if g := c.Call.StaticCallee(); g != nil && ct.fwd[g] {
+		return nil
+	}
+	if len(c.Call.Args) > 0 {
+		return c.Call.Args[0]
+	}
+	return nil
+}
+
+// innerName / innerArgs: method name and arguments proper of a call on the inner iterator
+func (ct *curType) innerName(c *ssa.Call) string {
+	if c.Call.IsInvoke() {
+		return c.Call.Method.Name()
+	}
+	if g := c.Call.StaticCallee(); g != nil {
+		return g.Name()
+	}
+	return "?"
+}
+
+func (ct *curType) innerArgs(c *ssa.Call) []ssa.Value {
+	if c.Call.IsInvoke() {
+		return c.Call.Args
+	}
+	if len(c.Call.Args) > 0 {
+		return c.Call.Args[1:]
+	}
+	return nil
 }
 
 // isKillStore: ins stores a key field, an inner-iterator field or the whole receiver struct
@@ -209,21 +354,20 @@ func (ct *curType) fieldLoad(f *ssa.Function, v ssa.Value) bool {
 	return ok && fa.X == ssa.Value(f.Params[0])
 }
 
-// innerCall: an invoke on the value loaded from an inner-iterator field of the receiver
+// innerCall: a call on the inner iterator — an invoke on an inner value, a method call on a concrete value
+// asserted out of one, or a call of a forwarder method on the same receiver
 func (ct *curType) innerCall(f *ssa.Function, ins ssa.Instruction) (*ssa.Call, bool) {
 	c, ok := ins.(*ssa.Call)
-	if !ok || !c.Call.IsInvoke() {
+	if !ok {
 		return nil, false
 	}
-	u, ok := c.Call.Value.(*ssa.UnOp)
-	if !ok || u.Op != token.MUL {
-		return nil, false
+	if ct.onInner(f, c) {
+		return c, true
 	}
-	fa, ok := u.X.(*ssa.FieldAddr)
-	if !ok || fa.X != ssa.Value(f.Params[0]) || !ct.inner[fa.Field] {
-		return nil, false
+	if g := c.Call.StaticCallee(); g != nil && ct.fwd[g] && len(c.Call.Args) > 0 && c.Call.Args[0] == ssa.Value(f.Params[0]) {
+		return c, true
 	}
-	return c, true
+	return nil, false
 }
 
 // sliceBack collects, in the backward slice of v through arithmetic, conversions, phis and calls of small pure
@@ -346,7 +490,7 @@ func ruleCUR1(p *Prog) *RuleResult {
 			for _, b := range f.Blocks {
 				for _, ins := range b.Instrs {
 					if c, ok := ct.innerCall(f, ins); ok {
-						for _, a := range c.Call.Args {
+						for _, a := range ct.innerArgs(c) {
 							for _, h := range sliceBack(a, isKey) {
 								addPair(h.(ssa.Instruction), c, c)
 							}
@@ -368,7 +512,7 @@ func ruleCUR1(p *Prog) *RuleResult {
 			}
 			for n, pr := range pairs {
 				fa := pr.h.(*ssa.UnOp).X.(*ssa.FieldAddr)
-				c := fmt.Sprintf("%s|%s with inner %s#%d", fname(f), ct.st.Field(fa.Field).Name(), pr.l.(*ssa.Call).Call.Method.Name(), n+1)
+				c := fmt.Sprintf("%s|%s with inner %s#%d", fname(f), ct.st.Field(fa.Field).Name(), ct.innerName(pr.l.(*ssa.Call)), n+1)
 				var bad ssa.Instruction
 				for _, k := range kills {
 					if k == pr.h || k == pr.l {
@@ -382,6 +526,21 @@ func ruleCUR1(p *Prog) *RuleResult {
 						av := map[ssa.Instruction]bool{a: true}
 						if reachAvoid(a, k, av) && reachAvoid(k, b, av) && (b == pr.use || reachAvoid(b, pr.use, av)) {
 							bad = k
+						}
+					}
+				}
+				// the inner iterator itself must be the current one: no reload between reading the field and calling it
+				if bad == nil {
+					if rv := ct.innerRecv(pr.l.(*ssa.Call)); rv != nil {
+						loads := map[ssa.Instruction]bool{}
+						ct.innerLoads(rv, loads, map[ssa.Value]bool{})
+						for ld := range loads {
+							for _, k := range kills {
+								// a later load of the field supersedes this one: the value called is the newest
+								if reachAvoid(ld, k, loads) && reachAvoid(k, pr.l, loads) {
+									bad = k
+								}
+							}
 						}
 					}
 				}
@@ -500,7 +659,7 @@ func ruleCUR2(p *Prog) *RuleResult {
 			continue
 		}
 		for _, f := range ct.methods {
-			if f == ct.reload {
+			if f == ct.reload || ct.fwd[f] {
 				continue
 			}
 			n := 0
@@ -510,20 +669,12 @@ func ruleCUR2(p *Prog) *RuleResult {
 					if !ok {
 						continue
 					}
-					it, _ := c.Call.Value.Type().Underlying().(*types.Interface)
-					if it == nil {
-						continue
-					}
-					var only []types.Type
-					if ct.concreteAll && len(ct.concrete) > 0 {
-						only = ct.concrete
-					}
-					mut, impls := p.mutatingIfaceMethod(it, c.Call.Method, only)
+					mut, impls := ct.movesInner(p, f, c, 0)
 					if !mut {
 						continue
 					}
 					n++
-					cn := fmt.Sprintf("%s|after inner %s#%d", fname(f), c.Call.Method.Name(), n)
+					cn := fmt.Sprintf("%s|after inner %s#%d", fname(f), ct.innerName(c), n)
 					if impls == 0 {
 						res.undecided(cn, p.ipos(c), "no implementation of the inner interface found")
 						continue
@@ -651,9 +802,9 @@ func ruleCUR3(p *Prog) *RuleResult {
 				for _, ins := range b.Instrs {
 					var what string
 					if c, ok := ct.innerCall(f, ins); ok {
-						for _, a := range c.Call.Args {
+						for _, a := range ct.innerArgs(c) {
 							if narrowed(a) {
-								what = "inner " + c.Call.Method.Name()
+								what = "inner " + ct.innerName(c)
 							}
 						}
 					} else if sto, ok := ins.(*ssa.Store); ok {
@@ -741,6 +892,28 @@ func ruleCUR4(p *Prog) *RuleResult {
 				}
 			}
 		}
+		// a helper called on the same receiver that may renew a key counts as a store of it
+		for _, b := range f.Blocks {
+			for _, ins := range b.Instrs {
+				ci, ok := ins.(ssa.CallInstruction)
+				if !ok {
+					continue
+				}
+				cc := ci.Common()
+				h := cc.StaticCallee()
+				if h == nil || len(cc.Args) == 0 || cc.Args[0] != recv {
+					continue
+				}
+				for k := range ct.keys {
+					if storesField(h, k, 0) {
+						if keyStores[k] == nil {
+							keyStores[k] = map[ssa.Instruction]bool{}
+						}
+						keyStores[k][ins] = true
+					}
+				}
+			}
+		}
 		var fields []int
 		for k := range keyStores {
 			fields = append(fields, k)
@@ -791,12 +964,7 @@ func ruleCUR4(p *Prog) *RuleResult {
 						cn := fmt.Sprintf("%s|read of %s#%d", fname(g), name, n)
 						witness := ""
 						isInnerLoad := func(v ssa.Value) bool {
-							l, ok := v.(*ssa.UnOp)
-							if !ok || l.Op != token.MUL {
-								return false
-							}
-							fa2, ok := l.X.(*ssa.FieldAddr)
-							return ok && fa2.X == ssa.Value(g.Params[0]) && ct.inner[fa2.Field]
+							return ct.innerVal(g, v, map[ssa.Value]bool{})
 						}
 						noKillBetween := func(w ssa.Instruction) bool {
 							for _, b2 := range g.Blocks {
@@ -832,6 +1000,27 @@ func ruleCUR4(p *Prog) *RuleResult {
 									if dom && noKillBetween(c) {
 										witness = "call on the inner iterator at " + p.ipos(c)
 									}
+								}
+							}
+						}
+						// (c) the same block goes on to call the inner iterator, with no reload in between: the key and
+						// the inner iterator were read together (inner, hs := ii.iter, ii.hs; low := inner.next())
+						if witness == "" {
+							past := false
+							for _, in2 := range b.Instrs {
+								if in2 == ins {
+									past = true
+									continue
+								}
+								if !past {
+									continue
+								}
+								if ct.isKill(g, in2) {
+									break
+								}
+								if c, ok := ct.innerCall(g, in2); ok {
+									witness = "call on the inner iterator at " + p.ipos(c) + " in the same block"
+									break
 								}
 							}
 						}
@@ -872,7 +1061,7 @@ func ruleCUR5(p *Prog) *RuleResult {
 					}
 					// a slice argument cut from a slice parameter
 					var buf *ssa.Parameter
-					for _, a := range c.Call.Args {
+					for _, a := range ct.innerArgs(c) {
 						if sl, ok := a.(*ssa.Slice); ok {
 							if prm, ok := sl.X.(*ssa.Parameter); ok {
 								buf = prm
@@ -917,7 +1106,7 @@ func ruleCUR5(p *Prog) *RuleResult {
 						continue
 					}
 					n++
-					cn := fmt.Sprintf("%s|zero answer of inner %s#%d", fname(f), c.Call.Method.Name(), n)
+					cn := fmt.Sprintf("%s|zero answer of inner %s#%d", fname(f), ct.innerName(c), n)
 					isLenBuf := func(v ssa.Value) bool {
 						cl, ok := v.(*ssa.Call)
 						if !ok {
@@ -975,4 +1164,95 @@ func ruleCUR5(p *Prog) *RuleResult {
 		}
 	}
 	return res
+}
+
+// movesInner: does the call on the inner iterator move it — by the effect of the implementations that can be
+// behind the field (the concrete types stored into it), of the concrete method for an asserted value, or of
+// the calls a forwarder passes on?
+func (ct *curType) movesInner(p *Prog, f *ssa.Function, c *ssa.Call, depth int) (bool, int) {
+	if depth > 2 {
+		return true, 1
+	}
+	if c.Call.IsInvoke() {
+		it, _ := c.Call.Value.Type().Underlying().(*types.Interface)
+		if it == nil {
+			return true, 0
+		}
+		var only []types.Type
+		if ct.concreteAll && len(ct.concrete) > 0 {
+			only = ct.concrete
+		}
+		return p.mutatingIfaceMethod(it, c.Call.Method, only)
+	}
+	g := c.Call.StaticCallee()
+	if g == nil {
+		return true, 0
+	}
+	if ct.fwd[g] {
+		any, n := false, 0
+		for _, b := range g.Blocks {
+			for _, ins := range b.Instrs {
+				if c2, ok := ins.(*ssa.Call); ok && ct.onInner(g, c2) {
+					m, k := ct.movesInner(p, g, c2, depth+1)
+					n += k
+					if m {
+						any = true
+					}
+				}
+			}
+		}
+		return any, n
+	}
+	// a method of a concrete inner iterator
+	return writesOwnReceiver(g, 0), 1
+}
+
+func writesOwnReceiver(f *ssa.Function, d int) bool {
+	if f == nil || f.Blocks == nil || len(f.Params) == 0 || d > 4 {
+		return false
+	}
+	recv := ssa.Value(f.Params[0])
+	for _, b := range f.Blocks {
+		for _, ins := range b.Instrs {
+			switch x := ins.(type) {
+			case *ssa.Store:
+				if fa, ok := x.Addr.(*ssa.FieldAddr); ok && fa.X == recv {
+					return true
+				}
+				if x.Addr == recv {
+					return true
+				}
+			case ssa.CallInstruction:
+				cc := x.Common()
+				if g := cc.StaticCallee(); g != nil && len(cc.Args) > 0 && cc.Args[0] == recv && writesOwnReceiver(g, d+1) {
+					return true
+				}
+			}
+		}
+	}
+	return false
+}
+
+// storesField: f (or a helper it calls on the same receiver) stores field k of its receiver
+func storesField(f *ssa.Function, k int, d int) bool {
+	if f == nil || f.Blocks == nil || len(f.Params) == 0 || d > 3 {
+		return false
+	}
+	recv := ssa.Value(f.Params[0])
+	for _, b := range f.Blocks {
+		for _, ins := range b.Instrs {
+			switch x := ins.(type) {
+			case *ssa.Store:
+				if fa, ok := x.Addr.(*ssa.FieldAddr); ok && fa.X == recv && fa.Field == k {
+					return true
+				}
+			case ssa.CallInstruction:
+				cc := x.Common()
+				if g := cc.StaticCallee(); g != nil && len(cc.Args) > 0 && cc.Args[0] == recv && storesField(g, k, d+1) {
+					return true
+				}
+			}
+		}
+	}
+	return false
 }
